@@ -39,10 +39,10 @@ class Placer:
     def new(self, kind, hash_only=False):
         self.n += 1
         ch = self.ch
-        body = f"c{self.n} {kind}" + ch.choice(["", " note", " END", " LAYER x", " 'q'", " 100%"])
+        body = f"c{self.n} {kind}" + ch.choice(["", " note", " END", " LAYER x", " 'q'", " 100%", ' "dq', " caf\u00e9 \u8def", " ## x", " #! y", "  two  spaces", " back\\", " */ x" if False else " a*b", " [a] (b) {c}", " /path/x.map"])
         style = 0 if hash_only else ch.int(0, 3)
         if style <= 1:
-            return ch.choice(["# ", "#"]) + body
+            return ch.choice(["# ", "#", "## ", "#! "]) + body
         if style == 2:
             return "/* " + body + " */"
         return "/* " + body + "\n   more */"
@@ -155,7 +155,15 @@ def render_with_comments(doc, ch):
     out = []
     for ri, root in enumerate(doc):
         lines_of(root, ch, pl, out, (ri,))
-    return "\n".join(out) + "\n", pl.placed
+    nl = ch.choice(["\n", "\n", "\r\n"])   # CRLF files: a multi-line C comment keeps its inner line breaks as they are
+    text = "\n".join(out) + "\n"
+    if nl == "\r\n":
+        text = "\n".join(ch.choice(["", "\n"]) for _ in range(1)) + text.replace("\n", "\r\n")
+        for p_ in pl.placed:
+            p_["text"] = p_["text"].replace("\n", "\r\n")
+    elif ch.chance(1, 6):
+        text = "\n\n" + text   # blank lines before the first root
+    return text, pl.placed
 
 
 def check_comments(src, placed, case, opts=None):
